@@ -7,6 +7,65 @@ func init() {
 	vHarnesses["VerifC08Keyed"] = VerifC08Keyed
 	vHarnesses["VerifC08Diff"] = VerifC08Diff
 	vHarnesses["VerifC08Canary"] = VerifC08Canary
+	vHarnesses["VerifC08Members"] = VerifC08Members
+}
+
+// vC08Member: a number, a short array of numbers or an object holding one.
+func vC08Member() JsonNode {
+	pair := func() jsonArray {
+		if vParam("INNER", 0) > 0 {
+			return vNumArray(vParam("INNER", 0))
+		}
+		return jsonArray{vNum(), vNum()}
+	}
+	switch vChoice(3) {
+	case 0:
+		return vNum()
+	case 1:
+		return pair()
+	default:
+		return jsonObject{"a": pair()}
+	}
+}
+
+// VerifC08Members: {} / [] hunks whose listed values and target members are containers, so
+// that a member may be spelled differently (other order, repeats) in the hunk and the target.
+func VerifC08Members() {
+	mode := [...]int{modeSet, modeMultiset}[vChoice(2)]
+	var last PathElement = PathSet{}
+	if mode == modeMultiset {
+		last = PathMultiset{}
+	}
+	c := make(jsonArray, vChoice(vParam("N", 2)+1))
+	for i := range c {
+		c[i] = vC08Member()
+	}
+	R := make([]JsonNode, vChoice(vParam("RM", 1)+1))
+	for i := range R {
+		R[i] = vC08Member()
+	}
+	A := make([]JsonNode, vChoice(vParam("AD", 1)+1))
+	for i := range A {
+		if vParam("ADKINDS", 1) > 1 {
+			A[i] = vC08Member()
+		} else {
+			A[i] = vNum()
+		}
+	}
+	if mode == modeSet {
+		vPairwiseDistinct(R, mode)
+	}
+	if vKnown("hash.alias") {
+		vAssumeNoHashAlias(append(append(jsonArray{}, c...), R...), jsonArray(A))
+	}
+	p, err := vClone(c).Patch(Diff{{Path: Path{last}, Remove: R, Add: A}})
+	vObserve("err", err != nil)
+	wantOk, want := refApplySetBag([]JsonNode(c), R, A, mode)
+	vAssert((err == nil) == wantOk, "set/multiset hunk over container members accepted/rejected against the reference semantics")
+	if err == nil {
+		vAssert(refEq(p, jsonArray(want), mode, 0), "set/multiset hunk over container members applied with a result other than the reference result")
+	}
+	vCover("c08.members." + [...]string{"set", "multiset"}[mode-1])
 }
 
 // refApplySetBag: reference semantics of a {} / [] hunk on array c.
